@@ -81,6 +81,7 @@ func TestC03_PendingLedger(t *testing.T) {
 	rec.Assume("Post is not called from inside a posted handler here (C05 covers it); operation sizes <= 4 KiB so that one peer action makes an operation completable")
 	vt.CheckSteps(t, 1200, 30, func(rt *rapid.T) {
 		w := newWorld(rt)
+		w.checkReady = true
 		defer w.close()
 		n := rapid.IntRange(2, 5).Draw(rt, "nobjs")
 		for i := 0; i < n; i++ {
@@ -253,6 +254,46 @@ func TestC03_PendingLedger(t *testing.T) {
 					tm.armed = true
 				}
 			},
+			"timerRearmedByEarlierHandler": func(rt *rapid.T) {
+				// two idle timers: B expires first and its callback cancels A - which has expired as well and sits later in
+				// the same poll batch - and arms it again; A is then in flight although its batch entry was a stale one
+				var idle []*wtimer
+				for _, tm := range w.timers {
+					if !tm.armed && !tm.closed {
+						idle = append(idle, tm)
+					}
+				}
+				if len(idle) < 2 {
+					rt.Skip("fewer than two idle timers")
+				}
+				b, a := idle[0], idle[1]
+				again := rapid.IntRange(4, 9).Draw(rt, "again")
+				errA := a.t.ScheduleOnce(2*time.Millisecond, func() {
+					a.armed = false
+					w.handlersInPoll++
+					w.log("timer%d-fired(first schedule)", a.id)
+				})
+				errB := b.t.ScheduleOnce(time.Millisecond, func() {
+					b.armed = false
+					w.handlersInPoll++
+					cerr := a.t.Cancel()
+					serr := a.t.ScheduleOnce(time.Duration(again)*time.Millisecond, func() {
+						a.armed = false
+						w.handlersInPoll++
+						w.log("timer%d-fired(re-armed)", a.id)
+					})
+					a.armed = cerr == nil && serr == nil
+					w.log("timer%d-fired: timer%d.Cancel=%v ScheduleOnce(%dms)=%v", b.id, a.id, cerr != nil, again, serr != nil)
+				})
+				if errA != nil || errB != nil {
+					w.fail("idle timers refused a schedule: %v %v", errA, errB)
+					return
+				}
+				a.armed, b.armed = true, true
+				w.log("top:timer%d.ScheduleOnce(2ms) timer%d.ScheduleOnce(1ms){re-arms timer%d}", a.id, b.id, a.id)
+				time.Sleep(4 * time.Millisecond) // both have expired: one batch
+				w.pollOnce()
+			},
 			"timerCancel": func(rt *rapid.T) {
 				if len(w.timers) == 0 {
 					rt.Skip("no timers")
@@ -273,6 +314,7 @@ func TestC03_PendingLedger(t *testing.T) {
 				w.log("top:timer%d.Close=%v", tm.id, err != nil)
 				if err == nil {
 					tm.armed = false
+					tm.closed = true
 				}
 			},
 			"sleep": func(rt *rapid.T) {
